@@ -7,6 +7,12 @@ CHECKS = {
  "C03": ("exploration", "crash/hang/position monitor over mutated, truncated and hostile inputs (in-process recover + journalled child processes)",
          "Runs the real lexer and parser on hundreds of thousands (quick) to millions (thorough) of prefixes, token edits, splices, byte noise and seeded located mistakes derived from the 382-file corpus and the documentation examples; a closed-form oracle judges every token position/type, every diagnostic's format and location, program-xor-errors, panics, process deaths and watchdog firings. Held-on-observed-executions, not a proof; right level because the property quantifies over all strings and only an input-independent oracle scales to inputs nobody wrote.",
          "Trusts the Go runtime, the harness position recomputation (rune/newline counting) and the watchdog (120 s per batch, 600 s alone) as a stand-in for termination; inputs capped at 64 KiB; NUL not judged.", "DESIGN.md §7 C03"),
+ "C01": ("exploration", "reference-model trace monitor: generator-known expression trees, effectful probes, layout variants; parsed tree compared with generator tree",
+         "Type-directed random expression trees plus the systematic table of all (outer operator, inner operator, side) pairs are printed under canonical and random legal layouts, run on the real parser+evaluator behind a recording Platform and compared effect by effect with a reference interpreter that evaluates the generator's own tree; the tree the parser built is compared with the tree the text was printed from.",
+         "Trusts the reference interpreter (harness/ref, calibrated: agrees with the evaluator on all judged corpus and documentation programs) and the printer's knowledge of the grammar (calibrated: every corpus program re-parses to the same tree under random layouts).", "DESIGN.md §7 C01"),
+ "C11": ("exploration", "closed-form law oracle over an exhaustive grid of containers x access forms x indices/bounds, one execution per access",
+         "Every array/string of length 0..3 (quick) / 0..5 (thorough) over several element and character classes is read, sliced and stored through every integer index in [-n-2,n+2], fractional, huge, NaN, infinite and -0 indices and all ordered pairs of slice bounds; outcome and panic kind are judged by the law in the property statement, not by reference code.",
+         "Panic kind for |i| >= 2^63 may be bounds or not-an-integer; for slices with several bad bounds any applicable kind is accepted.", "DESIGN.md §7 C11"),
  "C06": ("exploration", "metamorphic round-trip monitor: tokens, re-acceptance, tree and recorded behaviour of Format(s) vs s; evy fmt vs library",
          "For thousands of accepted sources (corpus, decorated with comments/blank lines/tabs, accepted token mutants, generated programs) compares the non-whitespace token sequence, the syntax tree and the recorded Platform trace of the formatted text with those of the source, and the real evy fmt with Program.Format.",
          "Tokens compared by (type,value); behaviour compared under fixed inputs/seed with positions stripped; lexer positions trusted only as far as C03 checks them.", "DESIGN.md §7 C06"),
